@@ -16,6 +16,7 @@ package main
 //           in order, every value once); (T2) every Pull result of the real operator (which
 //           parent each value came from) replayed against the model of merge.Op (heap minimum,
 //           whole-batch rule, read path up to PullerBatchValues): accepted, same values per Pull
+//   nullsites (T2/S) nulls first/last at the sites that construct a comparator: see nullsites.go
 
 import (
 	"context"
@@ -1071,6 +1072,9 @@ func runC06(c *Ctx) {
 	if c.Want("merge") {
 		runMerge(c)
 	}
+	if c.Want("nullsites") {
+		runNullSites(c)
+	}
 }
 
 func replayC06(c *Ctx) {
@@ -1130,6 +1134,11 @@ func replayC06(c *Ctx) {
 		var mc mergeCase
 		if json.Unmarshal(c.Replay, &mc) == nil {
 			checkMerge(c, &mc)
+		}
+	case "nullsites":
+		var nc nsCase
+		if json.Unmarshal(c.Replay, &nc) == nil {
+			checkNullSites(c, &nc)
 		}
 	default:
 		c.Note("replay check %q not understood", r.Check)
